@@ -168,6 +168,7 @@ static void ro_case(cbor_item_t* it) {
 int main(int argc, char** argv) {
   if (argc < 3) return 2;
   va_install();
+  vg_wild_half = 1; /* half-width items may hold values that are not exact in binary16: reading them must not "normalise" them */
   va_use_arena((size_t)1 << 28);
   struct sigaction sa;
   memset(&sa, 0, sizeof sa);
